@@ -1,4 +1,5 @@
 import random
+from math import ceil, floor
 from typing import Any, List, Sequence, TypeVar, cast
 
 from niltype import Nil, Nilable
@@ -24,8 +25,10 @@ class Random:
             return random.uniform(start, end)
 
         scale_factor = 10 ** precision
-        left_number = int(start * scale_factor)
-        right_number = int(end * scale_factor)
+        left_number = ceil(start * scale_factor)
+        right_number = floor(end * scale_factor)
+        if left_number > right_number:
+            return random.uniform(start, end)
 
         result = cast(float, self.random_int(left_number, right_number) / scale_factor)
         return round(result, precision)
